@@ -57,6 +57,9 @@ func TrimDomainName(s, origin string) string {
 	// Someone is using TrimDomainName(s, ".") to remove a dot if it exists.
 	if origin == "." {
 		// not strings.TrimSuffix: an escaped final dot belongs to the last label
+		if s == "." {
+			return "@" // the root itself is the apex: AddOrigin("@", ".") is "."
+		}
 		if dns.IsFqdn(s) {
 			return s[:len(s)-1]
 		}
